@@ -1463,7 +1463,7 @@ theorem roundtrip (s : Module) (o : Opts) (h : WellFormed s o) : read (write s o
   generalize hSB : (smpBlobs o s.smps 0).flatten = SB
   have hpol : (patOffs s o).length = s.pats.length := by unfold patOffs; rw [patOffsOf_length, patBlobs_length]
   have hsol : (smpOffs s o).length = s.smps.length := by unfold smpOffs; rw [offsets_length, smpBlobs_length]
-  have hnI : nIns s o ≤ 99 := by
+  have hnI : nIns s o ≤ 255 := by
     unfold nIns; split
     · next hm => rw [if_pos hm] at hmode; exact hmode.1
     · omega
@@ -1491,7 +1491,15 @@ theorem roundtrip (s : Module) (o : Opts) (h : WellFormed s o) : read (write s o
     rw [List.length_append, hprel, hIBl]; rfl
   have hpatBase : (fileHdr s o ++ (s.orders ++ (T0 ++ (T1 ++ (T2 ++ extraBlock o)))) ++ IB ++ IH).length = patBase s o := by
     rw [List.length_append, hprel2, hIHl]; rfl
-  rw [hw] at hfl
+  have hSBl : SB.length = ((smpBlobs o s.smps 0).map (·.length)).sum := by rw [← hSB, List.length_flatten]
+  -- the file has the size `fileSize` computes
+  have hfl0 : (fileHdr s o ++ (s.orders ++ (T0 ++ (T1 ++ (T2 ++ (extraBlock o ++ (IB ++ (IH ++ (PB ++ SB))))))))).length <
+      0x100000000 := by
+    simp only [List.length_append, hH, hT0l, hT1l, hT2l, hIBl, hIHl, hPBl, hSBl]
+    unfold fileSize smpBase patBase hdrBase insBase at hfl
+    omega
+  clear hfl
+  have hfl := hfl0
   have hfl' := hfl
   simp only [List.length_append, hH, hT0l, hT1l, hT2l, hIBl, hIHl] at hfl'
   generalize hW : fileHdr s o ++ (s.orders ++ (T0 ++ (T1 ++ (T2 ++ (extraBlock o ++ (IB ++ (IH ++ (PB ++ SB)))))))) = W at hfl
